@@ -50,3 +50,279 @@ def random_device(rng, **kw):
     d.uihb = {"sig": rsig(), "msg": b"HSM:UI:HB:5.4:" + rbytes(rng, rng.randint(0, 90)),
               "hash": rbytes(rng, 32), "pubkey": b"\x04" + rbytes(rng, 64)}
     return d
+
+
+# ---------------------------------------------------------------- own RLP (generator side)
+def rlp_len_prefix(n, offset):
+    if n < 56:
+        return bytes([offset + n])
+    ls = n.to_bytes((n.bit_length() + 7) // 8, "big")
+    return bytes([offset + 55 + len(ls)]) + ls
+
+
+def rlp_str(b):
+    if len(b) == 1 and b[0] < 0x80:
+        return b
+    return rlp_len_prefix(len(b), 0x80) + b
+
+
+def rlp_list(encoded_items):
+    payload = b"".join(encoded_items)
+    return rlp_len_prefix(len(payload), 0xC0) + payload
+
+
+# ---------------------------------------------------------------- own SHA-256 with midstate
+_K = [0x428a2f98, 0x71374491, 0xb5c0fbcf, 0xe9b5dba5, 0x3956c25b, 0x59f111f1, 0x923f82a4, 0xab1c5ed5,
+      0xd807aa98, 0x12835b01, 0x243185be, 0x550c7dc3, 0x72be5d74, 0x80deb1fe, 0x9bdc06a7, 0xc19bf174,
+      0xe49b69c1, 0xefbe4786, 0x0fc19dc6, 0x240ca1cc, 0x2de92c6f, 0x4a7484aa, 0x5cb0a9dc, 0x76f988da,
+      0x983e5152, 0xa831c66d, 0xb00327c8, 0xbf597fc7, 0xc6e00bf3, 0xd5a79147, 0x06ca6351, 0x14292967,
+      0x27b70a85, 0x2e1b2138, 0x4d2c6dfc, 0x53380d13, 0x650a7354, 0x766a0abb, 0x81c2c92e, 0x92722c85,
+      0xa2bfe8a1, 0xa81a664b, 0xc24b8b70, 0xc76c51a3, 0xd192e819, 0xd6990624, 0xf40e3585, 0x106aa070,
+      0x19a4c116, 0x1e376c08, 0x2748774c, 0x34b0bcb5, 0x391c0cb3, 0x4ed8aa4a, 0x5b9cca4f, 0x682e6ff3,
+      0x748f82ee, 0x78a5636f, 0x84c87814, 0x8cc70208, 0x90befffa, 0xa4506ceb, 0xbef9a3f7, 0xc67178f2]
+_H0 = [0x6a09e667, 0xbb67ae85, 0x3c6ef372, 0xa54ff53a, 0x510e527f, 0x9b05688c, 0x1f83d9ab, 0x5be0cd19]
+
+
+def _rotr(x, n):
+    return ((x >> n) | (x << (32 - n))) & 0xFFFFFFFF
+
+
+def sha256_compress(h, block):
+    w = list(struct.unpack(">16I", block)) + [0] * 48
+    for i in range(16, 64):
+        s0 = _rotr(w[i - 15], 7) ^ _rotr(w[i - 15], 18) ^ (w[i - 15] >> 3)
+        s1 = _rotr(w[i - 2], 17) ^ _rotr(w[i - 2], 19) ^ (w[i - 2] >> 10)
+        w[i] = (w[i - 16] + s0 + w[i - 7] + s1) & 0xFFFFFFFF
+    a, b, c, d, e, f, g, hh = h
+    for i in range(64):
+        t1 = (hh + (_rotr(e, 6) ^ _rotr(e, 11) ^ _rotr(e, 25)) + ((e & f) ^ (~e & g)) + _K[i] + w[i]) \
+            & 0xFFFFFFFF
+        t2 = ((_rotr(a, 2) ^ _rotr(a, 13) ^ _rotr(a, 22)) + ((a & b) ^ (a & c) ^ (b & c))) & 0xFFFFFFFF
+        hh, g, f, e, d, c, b, a = g, f, e, (d + t1) & 0xFFFFFFFF, c, b, a, (t1 + t2) & 0xFFFFFFFF
+    return [(x + y) & 0xFFFFFFFF for x, y in zip(h, [a, b, c, d, e, f, g, hh])]
+
+
+def sha256_midstate(prefix):
+    assert len(prefix) % 64 == 0
+    h = list(_H0)
+    for i in range(0, len(prefix), 64):
+        h = sha256_compress(h, prefix[i:i + 64])
+    return h
+
+
+def compress_coinbase(cb, split):
+    """RSK 'compressed' coinbase: 8-byte BE count of hashed bytes + 32-byte midstate + tail."""
+    assert split % 64 == 0 and split <= len(cb)
+    h = sha256_midstate(cb[:split])
+    return struct.pack(">Q", split) + b"".join(struct.pack(">I", x) for x in h) + cb[split:]
+
+
+# ---------------------------------------------------------------- RSK block headers
+class Header:
+    """fields: list of byte strings (17..20).  With 19/20 fields the last three are the BTC
+    merge-mining header, merkle proof and (compressed) coinbase transaction."""
+
+    def __init__(self, fields, coinbase_full=None):
+        self.fields = fields
+        self.coinbase_full = coinbase_full
+
+    def raw(self):
+        return rlp_list([rlp_str(f) for f in self.fields])
+
+    def hex(self):
+        return self.raw().hex()
+
+    def n(self):
+        return len(self.fields)
+
+    def without(self, k):
+        return rlp_list([rlp_str(f) for f in self.fields[:len(self.fields) - k]])
+
+    def hash_preimage(self):
+        return self.without(2) if self.n() in (19, 20) else self.raw()
+
+    def mm_payload_size(self):
+        kept = self.fields[:-3] if self.n() in (19, 20) else self.fields[:-1]
+        return sum(len(rlp_str(f)) for f in kept)
+
+    def cb_hash(self):
+        import hashlib
+        return hashlib.sha256(hashlib.sha256(self.coinbase_full).digest()).digest()[::-1]
+
+
+def random_header(rng, nfields=None, big=False):
+    nf = nfields or rng.choice([19, 20, 19, 20, 17, 18])
+    base_n = nf - 3 if nf in (19, 20) else nf
+    sizes = [32, 32, 20, 32, 32, 32, 256, rng.randint(1, 9), rng.randint(1, 8), 4, 4, 4,
+             rng.choice([0, 1, 2, 31, 32]), rng.randint(0, 8), 32, rng.choice([0, 1, 55, 56, 57]),
+             rng.choice([0, 20, 32])]
+    fields = []
+    for i in range(base_n):
+        sz = sizes[i % len(sizes)]
+        if rng.random() < 0.08:
+            sz = rng.choice([0, 1, 55, 56, 57, 255, 256, 300])
+        f = rbytes(rng, sz)
+        if sz == 1 and rng.random() < 0.5:
+            f = bytes([rng.choice([0, 1, 0x7F, 0x80, 0xFF])])
+        fields.append(f)
+    if big:
+        fields[6] = rbytes(rng, rng.choice([65000, 66000, 70000]))
+    cb_full = None
+    if nf in (19, 20):
+        btc_header = rbytes(rng, 80)
+        mp = rbytes(rng, 32 * rng.randint(0, 5))
+        cb_len = rng.choice([65, 100, 128, 129, 200, 300])
+        cb_full = rbytes(rng, cb_len)
+        split = 64 * rng.randint(0, cb_len // 64)
+        if split == cb_len and rng.random() < 0.5:
+            split -= 64
+        cb = compress_coinbase(cb_full, split)
+        fields += [btc_header, mp, cb]
+    return Header(fields, cb_full)
+
+
+# ---------------------------------------------------------------- BTC transactions
+def varint(n):
+    if n < 0xFD:
+        return bytes([n])
+    if n <= 0xFFFF:
+        return b"\xfd" + struct.pack("<H", n)
+    if n <= 0xFFFFFFFF:
+        return b"\xfe" + struct.pack("<I", n)
+    return b"\xff" + struct.pack("<Q", n)
+
+
+def push_min(d):
+    if len(d) < 0x4C:
+        return bytes([len(d)]) + d
+    if len(d) <= 0xFF:
+        return b"\x4c" + bytes([len(d)]) + d
+    if len(d) <= 0xFFFF:
+        return b"\x4d" + struct.pack("<H", len(d)) + d
+    return b"\x4e" + struct.pack("<I", len(d)) + d
+
+
+def push_with(d, enc):
+    """enc: 'min' | 'pd1' | 'pd2' | 'pd4' (non-minimal encodings allowed when they fit)"""
+    if enc == "pd1" and len(d) <= 0xFF:
+        return b"\x4c" + bytes([len(d)]) + d
+    if enc == "pd2" and len(d) <= 0xFFFF:
+        return b"\x4d" + struct.pack("<H", len(d)) + d
+    if enc == "pd4":
+        return b"\x4e" + struct.pack("<I", len(d)) + d
+    return push_min(d)
+
+
+class Op:
+    """one script operation: kind in push/zero/small/other"""
+
+    def __init__(self, kind, data=b"", enc="min", n=0):
+        self.kind, self.data, self.enc, self.n = kind, data, enc, n
+
+    def raw(self):
+        if self.kind == "push":
+            return push_with(self.data, self.enc)
+        if self.kind == "zero":
+            return b"\x00"
+        if self.kind == "small":
+            return bytes([0x50 + self.n])
+        return bytes([self.n])
+
+    def canonical(self):
+        """what the unsign step leaves when this is the last operation"""
+        if self.kind == "push":
+            return push_min(self.data) if len(self.data) > 0 else b"\x00"
+        return self.raw()
+
+
+def random_op(rng, last=False):
+    r = rng.random()
+    if r < 0.65:
+        ln = rng.choice([1, 2, 20, 33, 71, 72, 73, 75, 76, 77, 105, 255, 256, 300]) \
+            if rng.random() < 0.5 else rng.randint(1, 120)
+        if rng.random() < 0.05:
+            ln = 0
+        return Op("push", rbytes(rng, ln), rng.choice(["min", "min", "min", "pd1", "pd2", "pd4"]))
+    if r < 0.8:
+        return Op("zero")
+    if r < 0.9:
+        return Op("small", n=rng.randint(1, 16))
+    return Op("other", n=rng.choice([0x4F, 0x50, 0x61, 0x76, 0xA9, 0xAC, 0xAE, 0xFF]))
+
+
+class Tx:
+    def __init__(self, version, ins, outs, locktime, wit=None):
+        self.version, self.ins, self.outs, self.locktime, self.wit = version, ins, outs, locktime, wit
+
+    @staticmethod
+    def _ser(version, ins_scripts, ins, outs, locktime, wit):
+        out = struct.pack("<i", version)
+        seg = wit is not None and any(len(w) > 0 for w in wit)
+        if seg:
+            out += b"\x00\x01"
+        out += varint(len(ins))
+        for (op, _, seq), sc in zip(ins, ins_scripts):
+            out += op + varint(len(sc)) + sc + seq
+        out += varint(len(outs))
+        for val, spk in outs:
+            out += val + varint(len(spk)) + spk
+        if seg:
+            for w in wit:
+                out += varint(len(w))
+                for it in w:
+                    out += varint(len(it)) + it
+        out += locktime
+        return out
+
+    def raw(self):
+        return self._ser(self.version, [b"".join(o.raw() for o in ops) for _, ops, _ in self.ins],
+                         self.ins, self.outs, self.locktime, self.wit)
+
+    def unsigned(self):
+        scs = [b"\x00" * (len(ops) - 1) + ops[-1].canonical() for _, ops, _ in self.ins]
+        return self._ser(self.version, scs, self.ins, self.outs, self.locktime, self.wit)
+
+
+def random_tx(rng, max_in=4, max_out=3):
+    nin = rng.randint(1, max_in)
+    ins = []
+    for _ in range(nin):
+        nops = rng.randint(1, 6)
+        ops = [random_op(rng) for _ in range(nops)]
+        ins.append((rbytes(rng, 36), ops, rbytes(rng, 4)))
+    outs = [(rbytes(rng, 8), rbytes(rng, rng.choice([0, 22, 23, 25, 34])))
+            for _ in range(rng.randint(0, max_out))]
+    wit = None
+    if rng.random() < 0.3:
+        wit = [[rbytes(rng, rng.randint(0, 40)) for _ in range(rng.randint(0, 3))] for _ in range(nin)]
+    return Tx(rng.choice([1, 2]), ins, outs, rbytes(rng, 4), wit)
+
+
+def random_receipt(rng):
+    n = rng.choice([1, 30, 54, 55, 56, 57, 120, 254, 255, 256, 300, 700])
+    items = [rlp_str(rbytes(rng, rng.randint(0, 40))) for _ in range(rng.randint(1, 6))]
+    enc = rlp_list(items + [rlp_str(rbytes(rng, n))])
+    return enc
+
+
+def random_proof(rng):
+    k = rng.choice([1, 1, 2, 3, 5, 8]) if rng.random() < 0.9 else rng.choice([40, 255])
+    return [rbytes(rng, rng.choice([1, 32, 33, 64, 100, 254, 255]) if rng.random() < 0.5
+                   else rng.randint(1, 120)) for _ in range(k)]
+
+
+def sign_request_auth(rng, tx=None, segwit=None):
+    tx = tx or random_tx(rng)
+    segwit = rng.random() < 0.5 if segwit is None else segwit
+    msg = {"tx": tx.raw().hex(), "input": rng.choice([0, 1, len(tx.ins) - 1, 255, 256, 65535, 2 ** 32 - 1])
+           if rng.random() < 0.3 else rng.randrange(len(tx.ins)),
+           "sighashComputationMode": "segwit" if segwit else "legacy"}
+    if segwit:
+        msg["witnessScript"] = rbytes(rng, rng.choice([1, 71, 105, 252, 253, 254, 300, 1000])).hex()
+        msg["outpointValue"] = rng.choice([1, 2 ** 64 - 1, 2 ** 63, 2 ** 32]) if rng.random() < 0.3 \
+            else rng.randint(1, 2 ** 64 - 1)
+    receipt = random_receipt(rng)
+    proof = random_proof(rng)
+    req = {"command": "sign", "version": 5, "keyId": rng.choice(AUTH_PATHS), "message": msg,
+           "auth": {"receipt": receipt.hex(), "receipt_merkle_proof": [n.hex() for n in proof]}}
+    return req, tx, receipt, proof
